@@ -18,6 +18,12 @@ Binding C (histories): spec/KTableHistory.tla (design + mutants: memo keyed on s
       temperature / pressure, mixing ratios, T parameter, opacity mode switch, table directory; every
       evaluation equals a fresh object's AND is paired with its cross-section twin (`twin` events of
       Trace_KTable.tla: equality for degenerate tables, Jensen bound for generic tables) + canaries.
+Configuration dimension (KTableHistory.tla: interp x route x extra, (T, P) position classes; mutants: one family's
+      container drops the scheme it is constructed with / ignores the in-place setter): the twin relation is stated
+      UNDER a configuration applied identically to both twins.  EX_KTableHistory_cfg.cfg exports the alphabet, realised
+      by harness/fx_c20cfg.py on table objects and fresh models of both families built from pickle AND HDF5 files
+      through the caches (clause twin_under_configuration, events validated by TLC); history scenarios with a
+      `config` setting change it between evaluations of long-lived objects.
 """
 import math
 import os
@@ -30,6 +36,7 @@ import numpy as np
 from ..core import Machinery, frac, close, validate_trace, run_tlc
 from .. import fx_emission as fx
 from .. import fx_c20hist as fh
+from .. import fx_c20cfg as fc
 from ..fixtures import GridOpacity
 
 WN = [800.0, 2500.0]
@@ -265,8 +272,9 @@ def run_traces(ctx, n_models, extra=()):
 
     def add(ev, cls, detail, vec):
         ev['id'] = len(events)
+        clause = ev.pop('_clause', None) or 'trace_' + ev['ev']
         events.append(ev)
-        meta[ev['id']] = (cls, detail, vec)
+        meta[ev['id']] = (cls, detail, vec, clause)
 
     with fx.TempDir() as d:
         for i in range(n_models):
@@ -381,8 +389,8 @@ def run_traces(ctx, n_models, extra=()):
     badids = {b['id'] for b in bad}
     ctx.traces += len(events)
     for ev in events:
-        cls, detail, vec = meta[ev['id']]
-        ctx.verdict('trace_' + ev['ev'], ev['id'] not in badids, cls=cls, detail='TLC rejected event (%s)' % detail, vector=vec)
+        cls, detail, vec, clause = meta[ev['id']]
+        ctx.verdict(clause, ev['id'] not in badids, cls=cls, detail='TLC rejected event (%s)' % detail, vector=vec)
     ctx.add_sample(dict(trace_event={k: (v if not isinstance(v, list) else v[:6]) for k, v in events[0].items()}))
     # canaries
     j = [e for e in events if e['ev'] == 'jensen' and e['id'] not in badids]
@@ -402,8 +410,9 @@ def run_traces(ctx, n_models, extra=()):
     tj = [e for e in tw if e['rel'] == 'jensen']
     if extra and not te and not ctx.has_violations():
         raise Machinery('no accepted twin event available for the canary')
-    if te:                                       # a twin differing by 2e-9, a twin on a grid of another length
-        can += [dict(te[0], dev=2000), dict(te[-1], nx=te[-1]['nx'] + 1)]
+    if te:                # a twin differing by 2e-9, a twin on a grid of another length, twins under different configurations
+        can += [dict(te[0], dev=2000), dict(te[-1], nx=te[-1]['nx'] + 1),
+                dict(te[0], cx=['exp' if te[0]['ck'][0] == 'linear' else 'linear'] + list(te[0]['ck'][1:]))]
     if tj:
         can += [dict(tj[0], lo=-50)]
     ok2, bad2, _ = validate_trace('Trace_KTable', 'Trace_KTable.cfg', can) if can else (False, can, None)
@@ -414,20 +423,23 @@ def run_traces(ctx, n_models, extra=()):
 # ----------------------------------------------------------------------------
 # binding C: histories
 # ----------------------------------------------------------------------------
-MUTANTS = ('RefuteSize', 'RefuteFirst', 'RefuteWindowTwin', 'RefuteLatched')
+MUTANTS = ('RefuteSize', 'RefuteFirst', 'RefuteWindowTwin', 'RefuteLatched',
+           'RefuteKDrops', 'RefuteXDrops', 'RefuteKNoop', 'RefuteXNoop')
 
 
 def check_history_design(ctx):
     """KTableHistory, one TLC run (-continue): the invariants hold without a memo and with a memo keyed on the
     requested points / on their end points; every under-keyed memo and the latched opacity mode are refuted by
-    the window alphabet (exactly the four Refute* invariants must be violated)."""
+    the window alphabet; a family whose container drops the interpolation scheme it is constructed with, or ignores
+    the scheme set in place, is refuted by the configuration alphabet and is invisible on temperature nodes / on the
+    other routes (NodeBlind, RouteBlind hold).  Exactly the eight Refute* invariants must be violated."""
     res = run_tlc('MC_KTableHistory', 'MC_KTableHistory_all.cfg', workers=4, coverage=True, allow_violation=True,
                   extra=['-continue'])
     ctx.add_tlc('history-design', res)
     got = set(re.findall(r'Invariant (\S+) is violated', res.out))
     if set(MUTANTS) - got or got - set(MUTANTS):
         raise Machinery('KTableHistory: expected TLC to refute exactly %r, got %r' % (sorted(MUTANTS), sorted(got)))
-    for a in ('SetWin', 'SetTP', 'SetMode', 'Eval'):
+    for a in ('SetWin', 'SetTP', 'SetMode', 'SetCfg', 'Eval'):
         if res.action_cov.get(a, (0, 0))[1] == 0:
             raise Machinery('vacuous: action %s of KTableHistory never taken' % a)
     if res.distinct == 0:
@@ -443,8 +455,10 @@ def run_histories(ctx, nwalks, thorough):
             scs = fh.scenarios(ctx, root, log, thorough=thorough)
             # table objects are cheap to evaluate: many more walks, so that every ORDERED pair of requested grids is
             # evaluated back to back on one object (a memo keyed on too little may be exposed in one order only)
-            n = history.run_history(ctx, [x for x in scs if isinstance(x, fh.TableScenario)], 4 * nwalks)
-            n += history.run_history(ctx, [x for x in scs if isinstance(x, fh.ModelScenario)], nwalks)
+            # (the scenarios whose setting is the evaluation configuration reload their tables: as many walks as the models)
+            dense = [x for x in scs if isinstance(x, fh.TableScenario) and 'config' not in x.settings]
+            n = history.run_history(ctx, dense, 4 * nwalks)
+            n += history.run_history(ctx, [x for x in scs if x not in dense], nwalks)
             if not ctx.has_violations():
                 fh.self_check(scs, log)
         finally:
@@ -453,6 +467,40 @@ def run_histories(ctx, nwalks, thorough):
              % (n, len(scs), len(log.events), log.licensed))
     ctx.add_sample(dict(history_scenarios=[x.name for x in scs]))
     return log
+
+
+def export_configurations(ctx):
+    """the configuration alphabet of KTableHistory with what the specification says about each class"""
+    res = ctx.check_spec('export-configurations', 'MC_KTableHistory', 'EX_KTableHistory_cfg.cfg', workers=1)
+    vecs = res.tagged('VEC')
+    if len(vecs) != 16 * len(fh.INTERPS) * len(fh.ROUTES) * len(fh.EXTRAS):
+        raise Machinery('EX_KTableHistory_cfg exported %d configuration classes' % len(vecs))
+    return vecs
+
+
+def run_configurations(ctx, log, thorough):
+    vecs = export_configurations(ctx)
+    with fx.TempDir() as root:
+        fx.reset_all()
+        try:
+            sw = fc.run(ctx, vecs, root, log, thorough)
+        finally:
+            fx.reset_all()
+    ctx.note('configuration alphabet: %d exported classes; %d table-object and %d fresh-model twin evaluations under them'
+             % (len(vecs), sw.done['table'], sw.done['model']))
+    ctx.add_sample(dict(configuration_class=vecs[len(vecs) // 2]))
+
+
+def replay_configurations(ctx, vs):
+    log = fh.TwinLog(ctx)
+    with fx.TempDir() as root:
+        fx.reset_all()
+        try:
+            fc.replay(ctx, [v['vector'] for v in vs], root, log)
+        finally:
+            fx.reset_all()
+    if log.events:
+        run_traces(ctx, 0, extra=log.events)
 
 
 def replay_histories(ctx, vs):
@@ -505,7 +553,12 @@ def run(ctx):
                       traces='random tables 2..12 layers, 1..6 points, Gauss-Legendre and random weights',
                       histories='TLC-generated walks (depth 9) over <= 3 settings x <= 3 values on long-lived table objects and '
                                 '6-layer transmission / emission models: 41-point uniform, 37-point constant-resolution and '
-                                '21-point coarse native grids; degenerate tables with 2, 3, 4 points, one generic table')
+                                '21-point coarse native grids; degenerate tables with 2, 3, 4 points, one generic table',
+                      configurations='interpolation scheme {linear, exp} x route {GlobalCache key, OpacityCache.set_interpolation, '
+                                     'constructor argument, set_interpolation_mode} x {none, memory mode off, second molecule '
+                                     'de-activated} x T position {node, between, below, above} x P position (same); containers '
+                                     'pickle and HDF5; table objects, fresh 6-layer models of both families (TemperatureArray '
+                                     'profiles), and 3 of these configurations per history scenario with a config setting')
     ctx.assumptions = ['k-table files: PickleKTable layout written by the harness; pressure grid = layer pressures, values constant in T',
                        'cross-section twin: GridOpacity fixture on the same grid and numbers',
                        'per-layer coefficients are scaled with the model\'s documented deltaz and densityProfile',
@@ -513,7 +566,10 @@ def run(ctx):
                        'TLC + CommunityModules; exported term lists evaluated with Python Fractions',
                        'histories: every object owns the table objects it has loaded (installed in the cache singletons through '
                        'clear_cache / add_opacity for its own evaluations); results compared after rounding to 11 digits; '
-                       'the cross-section twin of a generic table is its weight-averaged coefficient (linear interpolation)']
+                       'the cross-section twin of a generic table is its weight-averaged coefficient (linear interpolation)',
+                       'a configuration is applied identically to both twins; a new scheme reaches long-lived tables because '
+                       'they are loaded again (both caches emptied) or through set_interpolation_mode on every loaded object; '
+                       'the cross-section twin of a pickle k-table is a pickle cross-section file, of an HDF5 k-table an HDF5 one']
     for cfg in (['MC_KTable_quick.cfg', 'MC_KTable_quick3.cfg'] if q else
                 ['MC_KTable_quick.cfg', 'MC_KTable_thorough.cfg', 'MC_KTable_thorough3.cfg']):
         ctx.check_spec('exhaustive-' + cfg[10:-4], 'MC_KTable', cfg, deque=True, need_actions=('KTransmit', 'KEmit'))
@@ -523,12 +579,13 @@ def run(ctx):
     for cfg in (['EX_KTable_quick.cfg', 'EX_KTable_quick3.cfg'] if q else ['EX_KTable_thorough.cfg', 'EX_KTable_quick3.cfg']):
         run_vectors(ctx, cfg, cfg[3:-4])
     log = run_histories(ctx, 6 if q else 24, not q)
+    run_configurations(ctx, log, not q)
     run_traces(ctx, 40 if q else 400, extra=log.events)
 
 
 def replay(ctx, violations):
     done_trace = False
-    hist = [v for v in violations if (v['vector'] or {}).get('history')]
+    hist = [v for v in violations if (v['vector'] or {}).get('history') and not (v['vector'] or {}).get('config')]
     if hist:
         seen, uniq = set(), []
         for v in hist:
@@ -537,9 +594,12 @@ def replay(ctx, violations):
                 seen.add(key)
                 uniq.append(v)
         replay_histories(ctx, uniq)
+    conf = [v for v in violations if (v['vector'] or {}).get('config')]
+    if conf:
+        replay_configurations(ctx, conf)
     for v in violations:
         vec = v['vector'] or {}
-        if vec.get('history'):
+        if vec.get('history') or vec.get('config'):
             continue
         if vec.get('trace'):
             if not done_trace:
